@@ -17,7 +17,7 @@ RULE = ("(a) for every connected graph in the box, 3 vertex labelings and every 
         "BFS over call histories on ONE shared evaluator (3 distinctly named motifs on the same vertex set x 2 focal "
         "vertices x 2 phi x 3 u-assignments = 36 letters; state = contents of both caches), every answer compared "
         "with a fresh evaluator and with the oracle; non-trivial = graph with >= 3 edges / cache state with >= 2 keys")
-BOUNDS = {"quick": "all 30 connected atlas graphs on 2..5 vertices and the 6- and 7-vertex ones with <= 7 edges, cycles C6..C8; one evaluator shared by all motifs (2 orders); histories: BFS to fixpoint of "
+BOUNDS = {"quick": "all 30 connected atlas graphs on 2..5 vertices and the 6- and 7-vertex ones with <= 7 edges, cycles C6..C8, two 8-vertex motifs (one with colour-refinement-equivalent induced subgraphs, the cube), small motifs with negative vertex ids; one evaluator shared by all motifs (2 orders); histories: BFS to fixpoint of "
                    "the cache-state space (cap depth 8; 64 states reached at depth 6)",
           "thorough": "+ all connected 6-vertex atlas graphs with <= 11 edges, 7-vertex ones with <= 9 edges, K6, cycles to C10"}
 ASSUMPTIONS = ["motifs on a shared evaluator are distinctly named (the property's premise)",
@@ -42,7 +42,24 @@ def graphs(tier, seed):
     return out
 
 
+# hand catalogue of 8-vertex motifs: a motif containing two non-isomorphic induced subgraphs that colour refinement
+# cannot tell apart (domino and bridged triangles), the cube, two 4-cliques sharing a vertex with a tail
+MOTIFS_8 = [
+    ("wl-twins", [(0, 1), (0, 3), (3, 4), (1, 2), (2, 3), (4, 5), (0, 5), (0, 6), (1, 6), (3, 7), (4, 7)]),
+    ("cube", [(0, 1), (1, 2), (2, 3), (0, 3), (4, 5), (5, 6), (6, 7), (4, 7), (0, 4), (1, 5), (2, 6), (3, 7)]),
+    ("two-K4+tail", [(0, 1), (0, 2), (0, 3), (1, 2), (1, 3), (2, 3), (3, 4), (3, 5), (3, 6), (4, 5), (4, 6), (5, 6),
+                     (6, 7)]),
+]
+NEGATIVE_LABELS = [0, -1, 3, -2, 5, -7, 2, -4]   # hash(-1) == hash(-2) in CPython
+
+
 def instances(tier, seed):
+    for name, edges in (MOTIFS_8[:2] if tier == "quick" else MOTIFS_8):
+        yield {"kind": "identity", "n": 8, "edges": edges, "labels": list(range(8))}
+    # small motifs under a labelling with negative vertex ids
+    for n, edges in enumr.atlas_connected(3, 5):
+        if len(edges) <= 6:
+            yield {"kind": "identity", "n": n, "edges": edges, "labels": NEGATIVE_LABELS[:n]}
     for n, edges in graphs(tier, seed):
         kinds = ("identity", "reversed", "sparse") if (len(edges) <= 11 and n <= 6) else ("identity", "sparse")
         if n == 7 and tier == "quick":
